@@ -1,9 +1,11 @@
 SPECIFICATION Spec
 CONSTANTS
   OrthoEdges = {2, 3, 6}
-  TricEdges = {2, 3, 4}
-  SlicesO = 2
-  SlicesT = 59
+  TricEdges = {2, 3, 4, 6}
+  SlicesO = 1
+  SlicesT = 53
+  XRowO = 4
+  XRowT = 2
   ExplicitThin = 7
   Slice <- MCSlice
   Emit = TRUE
